@@ -114,12 +114,28 @@ theorem qualified_fields_stripped (s : CacheStatus) (f : Freshness) (now : Int) 
 
 /-- The qualified form given more than once (one field line or several): the directive map names the
     fields of BOTH lists, so `qualified_fields_stripped` covers every one of them (the pinned parser kept
-    only the last list; see known_findings.json) -/
+    only the last list; see known_findings.json). The lists are lists of field names, split at every comma: the
+    result is the names of the first list followed by the names of the second WHATEVER bytes a member holds — a
+    quote that was escaped inside the quoted-string (`no-cache="X-A\", Set-Cookie"`) hides nothing after it, in
+    its own list or in the other (fifth hunt; the code split the unquoted argument with the quote-aware tokenizer) -/
 theorem qualified_lists_accumulate (m : Directives) (prev v : Str) (hp : alookup sNoCache m = some prev)
     (hq1 : (parseQuotedString prev).isEmpty = false) (hq2 : (parseQuotedString v).isEmpty = false) :
     (directiveInsert m sNoCache v).respNoCache =
-      some (some (trimmedCSV (parseQuotedString prev ++ [','] ++ parseQuotedString v))) :=
+      some (some (fieldNames (parseQuotedString prev) ++ fieldNames (parseQuotedString v))) :=
   two_qualified_lists m prev v hp hq1 hq2
+
+/-- one list: every name after a comma is named, whatever stands before the comma -/
+theorem qualified_names_after_a_comma (d : Directives) (v a b : Str) (hv : alookup (str% "no-cache") d = some v)
+    (hq : parseQuotedString v = a ++ ',' :: b) :
+    d.respNoCache = some (some (fieldNames a ++ fieldNames b)) := by
+  unfold Directives.respNoCache
+  simp only [hv, hq]
+  have : (a ++ ',' :: b).isEmpty = false := by cases a <;> rfl
+  simp [this, fieldNames_comma]
+
+set_option maxRecDepth 8000 in
+example : (parseCC [(sCacheControl, str% "max-age=60, no-cache=\"X-Device\\\", Set-Cookie\"")]).respNoCache =
+    some (some [str% "X-Device\"", str% "Set-Cookie"]) := by decide
 
 set_option maxRecDepth 8000 in
 example : (parseCC [(sCacheControl, str% "no-cache=\"A\""), (sCacheControl, str% "no-cache=\"B\"")]).respNoCache =
